@@ -12,5 +12,7 @@ void pristineInit();
 void delegateInit();
 bool delegateRequest(const Trace& tr);
 bool delegateResponse(Verdict& v);
+// Bounded exhaustive supplement for C08: every ordered pair of cached-year states, per zone (see tz.cpp).
+int sweepTzPairs(unsigned job, unsigned jobs, unsigned stride);
 }
 #endif
